@@ -130,6 +130,8 @@ class NTVal:
 
 def _wrap_field(ft, t):
     t = z3.simplify(t)
+    if hasattr(ft, "wrap_obj"):
+        return ft.wrap_obj(t)
     if ft.kind == "nt":
         return NTVal.of_term(ft.cls, t)
     return concretize(SV(t, ft))
@@ -320,6 +322,8 @@ def seq_of_items(ex, items, sty):
 def _elem_term(x, ety):
     if isinstance(x, NTVal):
         return x.term()
+    if isinstance(x, HObj) and hasattr(ety, "lift_obj"):
+        return ety.lift_obj(x)
     if is_sym(x):
         return coerce(x, ety).t
     return ety.lift(x)
@@ -1309,7 +1313,13 @@ class Ex:
                     if getattr(sl, "field", None) == field and sl.obj(self, fr) is obj:
                         hit = True
                 if not hit:
-                    raise Unsupported(f"loop {key} writes {obj.label}.{field} outside its declared state")
+                    # a write to a pre-existing object outside the loop's modifies-set: the frame obligation fails
+                    nm = spec.name or f"{fr.fi.qualname.split('.')[-1]}#loop{key[1]}"
+                    self.obligations.append(Obligation(
+                        f"{nm}:frame", "refuted",
+                        f"the loop body modifies {obj.label}.{field}, which is outside the loop's declared modifies-set",
+                        0.0, "/".join(l for _, l in self.decisions), {"note": "frame violation found by the executor's write log"}, "write-log"))
+                    raise PathAbort("frame violated")
 
     def sym_loop(self, s, fr, it: SymIter, ordn):
         key = (fr.fi.qualname, ordn)
@@ -1333,6 +1343,7 @@ class Ex:
         pre_locals = set(fr.locals)
         if which == 0:
             i = fresh(INT, "i").t
+            self.ghost[("loop_i", key)] = i
             self.assume(z3.And(i >= 0, i < n))
             vals = self._havoc(spec, fr, "i")
             if spec.using:
